@@ -4,11 +4,13 @@ For each /tmp/seed/<Cxx>.out/<a|b>: apply patch, build, run the full suite (must
 (must fail), revert the patch, run the demo (must pass)."""
 import json, os, re, subprocess, sys, shutil, glob
 ENV=dict(os.environ, GOFLAGS='-mod=mod', GOPROXY='off')
-WT='/tmp/seedcheck'
+WT=os.environ.get('SEED_WT','/tmp/seedcheck')
 def sh(cmd, cwd=WT, timeout=1800):
     p=subprocess.run(cmd, shell=True, cwd=cwd, env=ENV, stdout=subprocess.PIPE, stderr=subprocess.STDOUT, timeout=timeout, text=True)
     return p.returncode, p.stdout
 def dest_dir(readme, demo_src):
+    m=re.search(r'^// dir: *(\S+)', open(demo_src).read(), re.M)
+    if m and os.path.isdir(os.path.join(WT, m.group(1))): return m.group(1).rstrip('/') or '.'
     pkg=re.search(r'^package (\w+)', open(demo_src).read(), re.M).group(1)
     if pkg=='main': return '.'
     cands=set(re.findall(r'((?:pkg/[\w/]+\w)|providers)', readme))
@@ -55,11 +57,12 @@ for out in sorted(glob.glob(ROOT+'/C*.out')):
         target='./'+dd if dd!='.' else '.'
         name=re.findall(r'^func (Test\w+)\(', open(demos[0]).read(), re.M)
         runre='^(%s)$'%'|'.join(name) if name else '.'
-        rcw,ow=sh('go test -vet=off -count=1 -run "%s" %s'%(runre,target))
+        race='-race ' if re.search(r'^// race: *yes', open(demos[0]).read(), re.M) else ''
+        rcw,ow=sh('go test %s-vet=off -count=1 -run "%s" %s'%(race,runre,target))
         os.remove(demo_dst)
         sh('git checkout -q -- .')
         shutil.copy(demos[0], demo_dst)
-        rco,oo=sh('go test -vet=off -count=1 -run "%s" %s'%(runre,target))
+        rco,oo=sh('go test %s-vet=off -count=1 -run "%s" %s'%(race,runre,target))
         os.remove(demo_dst)
         ok = (not suite_fail) and rcw!=0 and rco==0
         results[sid]={'suite_passes_with_change': not suite_fail, 'demo_fails_with_change': rcw!=0, 'demo_passes_without': rco==0, 'demo_dir': dd, 'confirmed': ok}
@@ -75,5 +78,5 @@ for out in sorted(glob.glob(ROOT+'/C*.out')):
                               'go test -run %s %s with the change: FAIL'%(runre,target),'same without the change: ok'],
                   'needs_to_manifest':'see README.md (written by the seeding agent)','detected_by':'see DESIGN.md table of seeded changes'}
             json.dump(meta, open(sd+'/meta.json','w'), indent=1)
-json.dump(results, open(ROOT+'/confirm_results.json','w'), indent=1)
+json.dump(results, open(ROOT+'/confirm_results_%s.json'%os.path.basename(WT),'w'), indent=1)
 subprocess.run('git -C /repo worktree remove --force %s'%WT, shell=True)
